@@ -29,6 +29,7 @@ from adaptix import (
     datetime_by_format,
     datetime_by_timestamp,
     default_dict,
+    enum_by_exact_value,
     enum_by_name,
     enum_by_value,
     flag_by_member_names,
@@ -177,7 +178,23 @@ def recursive_cases():
     yield "Dict[str,A]", Dict[str, A], {"k": a}, []
 
 
+class Odd(enum.Enum):
+    """member values that are unhashable / falsy / of several types: the exact-value representation is the value itself"""
+    LST = [1, 2]
+    DCT = {"k": 1}
+    EMPTY = []
+    NONE = None
+    ZERO = 0
+    HALF = 1.5
+    TEXT = "s"
+
+
 def variant_cases():
+    for member in Odd:
+        yield "Odd (default exact value)", Odd, member, []
+    yield "List[Odd]", List[Odd], list(Odd), []
+    yield "Dict[str, Odd]", Dict[str, Odd], {m.name: m for m in Odd}, []
+    yield "Odd (enum_by_exact_value)", List[Odd], list(Odd), [enum_by_exact_value(Odd)]
     aware = dt.datetime(2020, 1, 2, 3, 4, 5, 678000, tzinfo=dt.timezone.utc)
     naive = dt.datetime(2020, 1, 2, 3, 4, 5, 678901)
     counts = collections.defaultdict(int, {"a": 1})
@@ -223,8 +240,11 @@ def run(report):
                     text = json.dumps(dumped)
                     transports.append(("json", lambda t=text: r.load(json.loads(t), hint)))
                     col = AdaptixJSON(r, hint)
-                    transports.append(("AdaptixJSON", lambda col=col: col.process_result_value(
-                        json.loads(json.dumps(col.process_bind_param(value, None))), None)))
+                    # a value whose representation is None is stored as SQL NULL, which the column type hands back untouched
+                    # (NULL is "no value" for every SQLAlchemy type): not a transport of the dumped datum
+                    if dumped is not None or value is None:
+                        transports.append(("AdaptixJSON", lambda col=col: col.process_result_value(
+                            json.loads(json.dumps(col.process_bind_param(value, None))), None)))
                 except (TypeError, ValueError):
                     report.outcome("extra: not json-serialisable")
                 for tname, fn in transports:
